@@ -25,24 +25,24 @@ PROPS = {
         "kani": ["types"],
         "technique": "Verus contracts on the end-record search/parsers against APPNOTE spec functions; Kani complete harness for the attribute-to-mode table",
         "level_text": "Deductive proof over all byte strings and all I/O outcomes: the end-of-central-directory search returns the last signature occurrence whose record fits (so trailing garbage is tolerated), every field equals the APPNOTE 4.3.16/4.3.15/4.3.14 decode of the bytes at that offset, the ZIP64 forward search returns the first record at or after the nominal offset, and an error is returned only on a device fault or when no well-formed record exists in the window. unix_mode() is proved for all 2^32 attribute words x 256 systems with Kani.",
-        "level_note": "I/O model of contracts/shims/io.rs; directory walk, name lookup and data offsets (unit U8) are not under contract yet and are listed as undecided; Vec<u8>::from_cp437 is an assumed contract in Verus (iterator adapters) decided by the Kani cp437 group; derived PartialEq assumed structural; decoders assumed",
-        "undecided": ["directory walk, names_map last-wins, by_name/by_index not-found, find_content data offset (units U6/U8)", "entry content equals original bytes (decoders assumed, CRC layer = C04)"],
+        "level_note": "I/O model of contracts/shims/io.rs. Archive level (unit U8b): ZipArchive::new returns the central records parsed in directory order from the located start (loop invariant against a recursive position function), the name map resolves a duplicated name to its LAST occurrence, by_index out of range / by_name of an absent name are FileNotFound, a classic (non-ZIP64) end record is taken at face value and refused only when the directory cannot lie before it, offset() is the length of prepended data; find_content (U8) locates the data from the LOCAL header's own name/extra lengths and refuses only a missing local signature or a device fault (the central directory stays authoritative for sizes/CRC); unsupported methods fail per entry in make_reader/make_crypto_reader. Vec<u8>::from_cp437 is an assumed contract in Verus decided by the Kani cp437 group (C19); derived PartialEq assumed structural; decoders assumed",
+        "undecided": ["entry content equals the producer's original bytes (decoders assumed; the CRC layer is C04)"],
     },
     "C04": {
         "units": ["U9_crc", "U8_entry_readers"],
         "kani": [],
         "technique": "Verus contracts on Crc32Reader and on the reader-stack constructors (real text, extracted each run) + history lemma",
         "level_text": "Deductive proof, for every inner reader, every buffer size (incl. zero-length) and every short-read schedule, that Crc32Reader::read hashes exactly the bytes it returns and can answer Ok(0) on a non-empty buffer only if the accumulated CRC equals the declared one or the entry is AE-2 (a checked lemma lifts this to any history of reads ending at end-of-file); that make_reader wraps EVERY decoding variant in a fresh Crc32Reader holding the entry's declared CRC and the AE-2 flag, that the flag is true exactly for an AES reader with vendor version AE-2, that ZipFile::get_reader / read and the streaming constructor go through that stack, and that only the raw reader bypasses it.",
-        "level_note": "crc32fast assumed to compute CRC-32 (uninterpreted crc32); decompressors and the crypto readers are opaque adapters with assumed contracts in this unit (AES reader proved in U11, ZipCrypto byte level by Kani); by_index/by_name passing the central-directory CRC to the stack is unit U8b (archive level)",
-        "undecided": ["by_index_with_optional_password hands the central directory's crc32 and method to make_crypto_reader/ZipFile (archive-level unit, not built yet)"],
+        "level_note": "crc32fast assumed to compute CRC-32 (uninterpreted crc32); decompressors and the crypto readers are opaque adapters with assumed contracts in this unit (AES reader proved in U11, ZipCrypto byte level by Kani); ZipFile::read is proved to go through the CRC layer of whichever decoding variant is installed (same declared CRC and AE-2 flag, exactly the returned bytes hashed, Ok(0) on a non-empty buffer only with a matching CRC) and by_index/by_name bind the entry to its central record (unit U8b clause entry_is_bound_to_its_central_record is tagged for this property but lives in a unit run under C03/C05)",
+        "undecided": [],
     },
     "C05": {
-        "units": ["U4_end_records", "U6_central_parser", "U8_entry_readers", "U8b_archive", "U11_aes", "U10_zipcrypto"],
+        "units": ["U4_end_records", "U6_central_parser", "U8_entry_readers", "U8b_archive", "U11_aes", "U10_zipcrypto", "U7b_append_copy", "U12_extract"],
         "kani": ["types"],
         "technique": "Verus panic-freedom and termination obligations on the parsers under the arbitrary-bytes I/O model",
         "level_text": "Deductive proof over ARBITRARY byte strings (the device model puts no constraint on content) and all I/O outcomes that the end-record searches, the central-header parser, the extra-field walk, the local-header locator, the crypto/decoder stack constructors, the streaming local-header reader and the drain-on-drop loop never overflow, index out of range, unwrap a None/Err or reach a panic!, and that every loop terminates (decreases clauses); allocations are bounded by 16-bit length fields read from the input. The method-99 and password-unwrap panics fixed in /repo are pinned by named clauses.",
-        "level_note": "memory bound while opening (Vec::with_capacity from the declared count) and the directory loop are in ZipArchive::new (archive-level unit, not built yet); AES reader underflow guard is unit U11; decompressor robustness on garbage is assumed; to_time totality is the Kani harness",
-        "undecided": ["ZipArchive::new: capacity bound and directory loop; by_index/by_name error mapping (archive-level unit)", "AesReader::new underflow guard, AesReaderValid::read (unit U11)", "ZipWriter::new_append (unit U7)"],
+        "level_note": "memory while opening: the capacity handed to Vec/HashMap::with_capacity is at most the input length and the number of parsed entries is at most input length / 46 (ZipArchive::new, unit U8b); the AES reader (underflow guard, read) is unit U11, the ZipCrypto reader U10; decompressor robustness on garbage is assumed; to_time totality is the Kani harness; opening for append (ZipWriter::new_append, unit U7b) and the streaming visitor (unit U12) are proved panic-free under the same arbitrary-bytes model",
+        "undecided": ["ZipStreamReader::visit termination (partial correctness only, see C10)", "decompressors fed garbage (assumed)"],
     },
     "C09": {
         "units": ["U9_crc", "U10_zipcrypto", "U11_aes", "U8_entry_readers", "U7a_writer_leaves", "U7_writer"],
